@@ -349,7 +349,7 @@ fn record_shard(run: &vcore::run::Run, tool: &str, shard: usize, o: &ShardOut, i
             if let Some(ps) = v["panics"].as_array() {
                 for p in ps {
                     let msg = p["msg"].as_str().unwrap_or("");
-                    let site = vcore::obs::panic_site(msg);
+                    let site = crate::panic_site(msg);
                     // a panic under an instrumented build is the same event as in the plain build,
                     // except for the dev profile whose overflow checks add panics of their own
                     let sig = if tool == "dev" { format!("C01:panic:dev:{site}") } else { format!("C01:panic:{site}") };
